@@ -1,7 +1,287 @@
 /-
   C03 — MULgraph geometry file write/read round trip preserves the geometry.
-  Property theorems about `Model.GeoFile.read` / `Model.GeoFile.write`.
+
+  Property theorems about `Model/GeoFile.lean` (model of mulgrid.write / mulgrid.read and all their
+  section routines, over the record layer `Model/Fixed.lean` and the format table regenerated from
+  /repo into `Gen/Specs.lean`).  Proofs: `Proofs/GeoFile*.lean`.
+
+  Reading guide (clause of the property → theorem):
+    "writing any geometry and reading it back gives …"            geo_roundtrip  (read (write g) = canonGeo g)
+    "the same header options (naming convention, atmosphere type
+      and sizes, units, permeability angle, block ordering)"      header_preserved
+    "the same nodes … in the same order, coordinates equal to the
+      two decimals the format carries"                            nodes_preserved
+    "columns (node order, optional specified centre)"             columns_preserved
+    "connections"                                                 connections_preserved
+    "layers"                                                      layers_preserved  (needs LayerCentresKept: KNOWN FINDING,
+                                                                  see layer_centre_zero_lost / second_file_differs)
+    "non-default surface elevations"                              surfaces_preserved
+    "well tracks"                                                 wells_preserved
+    "writing the re-read geometry reproduces the first file
+      byte for byte"                                              geo_write_fixpoint_partial
+    "for a geometry in feet the file holds feet and the re-read
+      geometry is again in metres"                                feet_roundtrip
+    "right-justified … names (… only right-justified names are
+      safe in files)"                                             rjust_names_safe, left_justified_name_changes
+    every field of the format table of the *current* /repo tree  table_is_current  (evaluated on every build)
+
+  `WF g` (decidable, `Model/GeoFile.lean`) is the property's own quantifier — header options in range,
+  right-justified names of the convention's length without line breaks, distinct names, column nodes and
+  connection columns that exist, every number within the ten-column limit at full precision — plus three
+  clauses the proof forces and the real code confirms: at least one layer (`mulgrid().write(f); mulgrid(f)`
+  raises IndexError in identify_layer_tops), every well has a track point and a 5-character name (the
+  name field is neither stripped nor justified on read), and no column whose *rounded* polygon is
+  clockwise (a sliver thinner than the file's resolution; the reader would reverse its nodes).
 -/
 import PyTough.Model.GeoFile
+import PyTough.Proofs.GeoFileFixpoint2
+
 namespace Props.C03
+open Py Model Model.GeoFile
+
+/-- `g'` is what writing `g` to a file and reading that file gives -/
+def Reread (g g' : Geo) : Prop := ∃ t, write g = .ok t ∧ GeoFile.read t = .ok g'
+
+/-- the format table regenerated from /repo's `mulgrid_format_specification` (field names — hence the
+    instance-dictionary keys the header is read into and written from — and field specs) is the
+    table all theorems below are about -/
+theorem table_is_current : specs = .ok SP := Proofs.GeoFile.specs_eq
+
+/-! ### the round trip -/
+
+/-- **Write then read.**  Every well-formed geometry can be written, and reading the text gives
+    exactly `canonGeo g`: every number replaced by the decimal its field carries (in file units,
+    multiplied back by the unit scale), unspecified centres recomputed from the rounded nodes, a
+    layer centre written as `0.00` replaced by the reader's default, everything else — names,
+    orders, flags — unchanged. -/
+theorem geo_roundtrip (g : Geo) (hwf : WF g = true) : Reread g (canonGeo g) :=
+  Proofs.GeoFile.roundtrip hwf
+
+theorem reread_unique {g g₁ g₂ : Geo} (h₁ : Reread g g₁) (h₂ : Reread g g₂) : g₁ = g₂ := by
+  obtain ⟨t₁, hw₁, hr₁⟩ := h₁
+  obtain ⟨t₂, hw₂, hr₂⟩ := h₂
+  rw [hw₁] at hw₂
+  cases hw₂
+  rw [hr₁] at hr₂
+  cases hr₂
+  rfl
+
+theorem reread_eq {g g' : Geo} (hwf : WF g = true) (h : Reread g g') : g' = canonGeo g :=
+  reread_unique h (geo_roundtrip g hwf)
+
+/-- header options: naming convention, atmosphere type, unit type, block ordering are unchanged;
+    atmosphere volume and connection distance are the three significant digits of their `10.2e`
+    fields, the permeability angle the two decimals of its `10.2f` field -/
+theorem header_preserved (g g' : Geo) (hwf : WF g = true) (h : Reread g g') :
+    g'.hdr.type = g.hdr.type ∧ g'.hdr.convention = g.hdr.convention ∧ g'.hdr.atmosType = g.hdr.atmosType ∧
+    g'.hdr.unitType = g.hdr.unitType ∧ g'.hdr.blockOrder = g.hdr.blockOrder ∧
+    g'.hdr.atmosVolume = roundE 2 g.hdr.atmosVolume ∧ g'.hdr.atmosConnection = roundE 2 g.hdr.atmosConnection ∧
+    g'.hdr.permAngle = roundF 2 g.hdr.permAngle ∧ g'.hdr.cntype = g.hdr.cntype := by
+  rw [reread_eq hwf h]
+  obtain ⟨L, LL, s, w⟩ := Proofs.GeoFile.wfp_of hwf
+  refine ⟨rfl, rfl, rfl, rfl, ?_, rfl, rfl, rfl, rfl⟩
+  exact w.hdr.bo.symm
+
+/-- the same nodes in the same order; each coordinate is `x / scale` rounded half-even to two
+    decimals, times the scale -/
+theorem nodes_preserved (g g' : Geo) (hwf : WF g = true) (h : Reread g g') :
+    g'.nodes = g.nodes.map fun n =>
+      { n with x := canonC 2 (scaleOf g) n.x, y := canonC 2 (scaleOf g) n.y } := by
+  rw [reread_eq hwf h]; rfl
+
+/-- the same columns in the same order, each with the same nodes in the same order and the same
+    `centre_specified` flag; a specified centre comes back as its two decimals -/
+theorem columns_preserved (g g' : Geo) (hwf : WF g = true) (h : Reread g g') :
+    g'.columns.map (fun c => (c.name, c.nodes, c.centreSpecified)) =
+      g.columns.map (fun c => (c.name, c.nodes, c.centreSpecified)) ∧
+    g'.columns.map (fun c => if c.centreSpecified != 0 then some c.centre else none) =
+      g.columns.map (fun c => if c.centreSpecified != 0 then
+        some (match c.centre with
+          | .at x y => Centre.at (canonC 2 (scaleOf g) x) (canonC 2 (scaleOf g) y)
+          | o => o) else none) := by
+  rw [reread_eq hwf h]
+  unfold canonGeo
+  simp only [List.map_map]
+  constructor
+  · apply List.map_congr_left; intro c _; rfl
+  · apply List.map_congr_left
+    intro c _
+    simp only [Function.comp, canonColumn]
+    by_cases hc : (c.centreSpecified != 0) = true
+    · simp only [hc, if_true]
+      rfl
+    · simp only [hc, Bool.false_eq_true, if_false]
+
+/-- the same connections in the same order -/
+theorem connections_preserved (g g' : Geo) (hwf : WF g = true) (h : Reread g g') :
+    g'.connections = g.connections := by
+  rw [reread_eq hwf h]; rfl
+
+/-- the same layers in the same order, bottoms at two decimals (always); centres at two decimals
+    when `LayerCentresKept g` -/
+theorem layers_preserved (g g' : Geo) (hwf : WF g = true) (h : Reread g g') :
+    g'.layers.map (fun l => (l.name, l.bottom)) =
+      g.layers.map (fun l => (l.name, canonC 2 (scaleOf g) l.bottom)) ∧
+    (LayerCentresKept g = true →
+      g'.layers.map (·.centre) = g.layers.map (fun l => canonC 2 (scaleOf g) l.centre)) := by
+  rw [reread_eq hwf h]
+  have hl : (canonGeo g).layers = canonLayers (scaleOf g) g.layers := rfl
+  rw [hl]
+  refine ⟨Proofs.GeoFile.canonLayers_name_bottom _ _, fun hk => ?_⟩
+  exact Proofs.GeoFile.canonLayers_centre_kept _ _ hk
+
+/-- exactly the columns that had a non-default surface have one after the trip, and it is the
+    elevation at two decimals -/
+theorem surfaces_preserved (g g' : Geo) (hwf : WF g = true) (h : Reread g g') :
+    g'.columns.map (fun c => (c.name, c.defaultSurface, if c.defaultSurface then none else c.surface)) =
+      g.columns.map (fun c => (c.name, c.defaultSurface,
+        if c.defaultSurface then none else c.surface.map (canonC 2 (scaleOf g)))) := by
+  rw [reread_eq hwf h]
+  unfold canonGeo
+  simp only [List.map_map]
+  apply List.map_congr_left
+  intro c _
+  simp only [Function.comp, canonColumn]
+  by_cases hd : c.defaultSurface = true
+  · simp only [hd, if_true]
+  · simp only [hd, Bool.false_eq_true, if_false]
+
+/-- the same wells in the same order, each with its track points in order at one decimal -/
+theorem wells_preserved (g g' : Geo) (hwf : WF g = true) (h : Reread g g') :
+    g'.wells = g.wells.map fun w => { w with pos := w.pos.map fun p =>
+      (canonC 1 (scaleOf g) p.1, canonC 1 (scaleOf g) p.2.1, canonC 1 (scaleOf g) p.2.2) } := by
+  rw [reread_eq hwf h]; rfl
+
+/-! ### second generation -/
+
+/-- **Write, read, write.**  Writing the re-read geometry reproduces the first file byte for byte.
+    `_partial`: (1) `LayerCentresKept g` — without it the statement is false, see
+    `second_file_differs` (KNOWN FINDING layer-centre-zero-recomputed); (2) `SizesStable g` — that the
+    two `10.2e` header sizes print identically after rounding is evaluated per geometry, not proved
+    for all values (the `10.2f` fields need no such hypothesis: `Proofs.GeoFile.textF_roundF`). -/
+theorem geo_write_fixpoint_partial (g : Geo) (hwf : WF g = true) (hk : LayerCentresKept g = true)
+    (hs : SizesStable g = true) :
+    ∃ t g', write g = .ok t ∧ GeoFile.read t = .ok g' ∧ write g' = .ok t := by
+  obtain ⟨t, hw, hr⟩ := geo_roundtrip g hwf
+  obtain ⟨L, LL, s, w⟩ := Proofs.GeoFile.wfp_of hwf
+  exact ⟨t, canonGeo g, hw, hr, by rw [Proofs.GeoFile.write_canon w hk hs, hw]⟩
+
+/-- a number that already has `p` decimals is printed as itself: rounding is idempotent -/
+theorem rounding_idempotent (p : Nat) (hp : 0 < p) (x : Flt) : roundF p (roundF p x) = roundF p x :=
+  Proofs.GeoFile.roundF_idem p hp x
+
+/-! ### feet -/
+
+/-- **FEET.**  For a geometry with unit type `'FEET '` the header says so, every node line of the
+    file holds `'%10.2f' % (x / 0.3048)` — feet — and the re-read position is that decimal times
+    0.3048 — metres again. -/
+theorem feet_roundtrip (g : Geo) (hwf : WF g = true) (hu : g.hdr.unitType = feet) :
+    ∃ t g', write g = .ok t ∧ GeoFile.read t = .ok g' ∧ g'.hdr.unitType = feet ∧
+      (∀ n ∈ g.nodes, ∃ fx fy,
+        fmtVal (fF 2) (n.x.div (mkRat 381 1250)).toVal = .ok fx ∧
+        fmtVal (fF 2) (n.y.div (mkRat 381 1250)).toVal = .ok fy ∧
+        (ljust n.name 3 ++ fx ++ fy ++ ['\n']) ∈ pyLines t) ∧
+      g'.nodes = g.nodes.map fun n =>
+        { n with x := (roundF 2 (n.x.div (mkRat 381 1250))).mul (mkRat 381 1250),
+                 y := (roundF 2 (n.y.div (mkRat 381 1250))).mul (mkRat 381 1250) } := by
+  obtain ⟨L, LL, s, w⟩ := Proofs.GeoFile.wfp_of hwf
+  have hs : s = mkRat 381 1250 := by
+    have := w.sc
+    rw [hu] at this
+    cases this
+    rfl
+  subst hs
+  obtain ⟨t, hw, hl⟩ := Proofs.GeoFile.pyLines_write w
+  obtain ⟨t', hw', hr⟩ := geo_roundtrip g hwf
+  rw [hw] at hw'
+  cases hw'
+  refine ⟨t, canonGeo g, hw, hr, hu, ?_, ?_⟩
+  · intro n hn
+    have hok := w.nodes n hn
+    refine ⟨Proofs.GeoFile.textF 10 2 (n.x.div (mkRat 381 1250)), Proofs.GeoFile.textF 10 2 (n.y.div (mkRat 381 1250)),
+      Proofs.GeoFile.fmtVal_f_flt (f := fF 2) rfl _, Proofs.GeoFile.fmtVal_f_flt (f := fF 2) rfl _, ?_⟩
+    rw [hl]
+    unfold Proofs.GeoFile.fileLines Proofs.GeoFile.bodyLines
+    simp only [List.mem_cons, List.mem_append]
+    right; right; left
+    unfold Proofs.GeoFile.nodeLines
+    refine List.mem_map.mpr ⟨n, hn, ?_⟩
+    simp [Proofs.GeoFile.recText, Proofs.GeoFile.nodeItems, Proofs.GeoFile.nameItem, Proofs.GeoFile.coordItem]
+  · unfold canonGeo
+    rw [w.sOf]
+    rfl
+
+/-! ### names -/
+
+/-- **Right-justified names are safe.**  A name of the convention's length `L ≤ 3` that is blanks
+    followed by a core neither starting nor ending in whitespace is written (`ljust(3)`, `'%3s'`)
+    into exactly its three columns and comes back (`strip().rjust(L)`) as itself. -/
+theorem rjust_names_safe (L : Nat) (hL : L ≤ 3) (n : Str) (h : nameOK L n = true) :
+    ∃ t, writeField (fS 3) (.str (ljust n 3)) = .ok t ∧ t.length = 3 ∧
+      readField .default 's' t = .ok (.str t) ∧ fixName t L = n := by
+  have hs := Proofs.GeoFile.nameShape_of_ok h
+  have hf := Proofs.GeoFile.fieldRT_name hL hs
+  exact ⟨ljust n 3, hf.w, hf.len, hf.r .default, Proofs.GeoFile.fixName_ljust hL hs⟩
+
+/-- the documentation's warning: a left-justified name does not survive (here `'a  '` in
+    convention 0 comes back as `'  a'`) -/
+theorem left_justified_name_changes :
+    nameOK 3 ['a', ' ', ' '] = false ∧ fixName (ljust ['a', ' ', ' '] 3) 3 = [' ', ' ', 'a'] := by decide
+
+/-! ### the known finding: a layer centre written as 0.00 -/
+
+/-- exact rationals / small names for the examples -/
+def r (n : Int) (d : Nat := 1) : Flt := .q (mkRat n d)
+def n3 (a : Char) : Str := [' ', ' ', a]
+
+/-- one column, top at 1.006 (written 1.01), first layer down to −1.0 with centre 0.003 (written 0.00) -/
+def gCentre : Geo :=
+  { nodes := [⟨n3 'a', r 0, r 0⟩, ⟨n3 'b', r 10, r 0⟩, ⟨n3 'c', r 0, r 15⟩, ⟨n3 'd', r 10, r 15⟩],
+    columns := [⟨n3 'a', [n3 'a', n3 'b', n3 'd', n3 'c'], 0, .at (r 5) (r 75 10), some (r 1006 1000), true, 2⟩],
+    layers := [⟨[' ', '0'], r 1006 1000, r 1006 1000, r 1006 1000⟩, ⟨[' ', '1'], r (-1), r 3 1000, r 1006 1000⟩,
+               ⟨[' ', '2'], r (-4), r (-25) 10, r (-1)⟩] }
+
+/-- **The layers clause fails without `LayerCentresKept`** (model witness of KNOWN FINDING
+    layer-centre-zero-recomputed; the same geometry is in the harness corpus and is replayed on the
+    real code): `gCentre` is well-formed, its first layer's centre 0.003 is written as `0.00`, and
+    the re-read centre is the default 0.005 — not the 0.00 the file carries. -/
+theorem layer_centre_zero_lost :
+    WF gCentre = true ∧ LayerCentresKept gCentre = false ∧
+    (canonGeo gCentre).layers.map (·.centre) ≠ gCentre.layers.map (fun l => canonC 2 1 l.centre) := by
+  decide +kernel
+
+/-- the same with a centre of −0.002 (written `-0.00`): here also the second-generation file
+    differs from the first (`0.00` instead of `-0.00`), so `geo_write_fixpoint` needs the hypothesis -/
+def gCentre2 : Geo :=
+  { gCentre with
+    columns := [⟨n3 'a', [n3 'a', n3 'b', n3 'd', n3 'c'], 0, .at (r 5) (r 75 10), some (r 1), true, 2⟩],
+    layers := [⟨[' ', '0'], r 1, r 1, r 1⟩, ⟨[' ', '1'], r (-1004) 1000, r (-2) 1000, r 1⟩,
+               ⟨[' ', '2'], r (-4), r (-25) 10, r (-1004) 1000⟩] }
+
+theorem second_file_differs :
+    WF gCentre2 = true ∧ LayerCentresKept gCentre2 = false ∧
+    ((write gCentre2).bind GeoFile.read).bind write ≠ write gCentre2 := by
+  decide +kernel
+
+/-! ### the hypotheses are satisfiable (non-vacuity) -/
+
+/-- 2 × 1 columns in feet, atmosphere type 1, block order given, one specified centre, one
+    non-default surface, one well with two track points -/
+def gExample : Geo :=
+  { hdr := { unitType := feet, atmosType := 1, permAngle := r 30, blockOrderInt := some 0, blockOrder := some 0 },
+    nodes := [⟨n3 'a', r 0, r 0⟩, ⟨n3 'b', r 100, r 0⟩, ⟨n3 'c', r 2005 10, r 0⟩,
+              ⟨n3 'd', r 0, r 150⟩, ⟨n3 'e', r 100, r 150⟩, ⟨n3 'f', r 2005 10, r 150⟩],
+    columns := [⟨n3 'a', [n3 'a', n3 'b', n3 'e', n3 'd'], 0, .at (r 50) (r 75), some (r 0), true, 2⟩,
+                ⟨n3 'b', [n3 'b', n3 'c', n3 'f', n3 'e'], 1, .at (r 150) (r 7512 100), some (r (-31) 10), false, 1⟩],
+    connections := [(n3 'a', n3 'b')],
+    layers := [⟨[' ', '0'], r 0, r 0, r 0⟩, ⟨[' ', '1'], r (-10), r (-5), r 0⟩, ⟨[' ', '2'], r (-30), r (-20), r (-10)⟩],
+    wells := [⟨[' ', ' ', ' ', 'W', '1'], [(r 10, r 20, r 0), (r 10, r 21, r (-255) 10)]⟩] }
+
+example : WF gExample = true ∧ LayerCentresKept gExample = true ∧ SizesStable gExample = true ∧
+    gExample.hdr.unitType = feet := by decide +kernel
+-- (test, not proof) the theorems' conclusion evaluated on the example
+example : (write gExample).bind GeoFile.read = .ok (canonGeo gExample) := by decide +kernel
+example : nameOK 3 [' ', 'a', 'b'] = true ∧ nameOK 2 [' ', '7'] = true := by decide
+example : 0 < 2 := by decide
+
 end Props.C03
